@@ -402,6 +402,8 @@ def sparse_basis(r, sig, tries=300):
             cands.append((sum(1 for v in col if v), m, col))
     cands.sort(key=lambda t: t[0])
     small = cands[:max(2 * L + 4, len(cands) // 3)]
+    if not small:
+        return sig
     best, bs = sig, fill_in_score(sig)
     for _ in range(tries):
         pick = [r.choice(small) for _ in range(L)]
